@@ -130,6 +130,11 @@ def _table():
     add('Mat3.matmul', [('self', 'm3'), ('other', 'm3')], lambda M, a, b: a @ b)
     add('Mat3.matvec', [('self', 'm3'), ('other', 'v3')], lambda M, a, v: a @ v)
 
+    # "with the default matrix as identity": the products with the default-constructed matrix
+    add('Mat3.identity_left', [('other', 'm3')], lambda M, b: M.Mat3() @ b)
+    add('Mat3.identity_right', [('self', 'm3')], lambda M, a: a @ M.Mat3())
+    add('Mat3.identity_vec', [('other', 'v3')], lambda M, v: M.Mat3() @ v)
+
     # ---- Mat4 (desper/math.py:726-1039)
     add('Mat4.new0', [], lambda M: M.Mat4())
     six = [('left', 's'), ('right', 's'), ('bottom', 's'), ('top', 's'), ('z_near', 's'),
@@ -163,6 +168,9 @@ def _table():
     add('Mat4.invert', [('self', 'm4')], lambda M, a: ~a)
     add('Mat4.matmul', [('self', 'm4'), ('other', 'm4')], lambda M, a, b: a @ b)
     add('Mat4.matvec', [('self', 'm4'), ('other', 'v4')], lambda M, a, v: a @ v)
+    add('Mat4.identity_left', [('other', 'm4')], lambda M, b: M.Mat4() @ b)
+    add('Mat4.identity_right', [('self', 'm4')], lambda M, a: a @ M.Mat4())
+    add('Mat4.identity_vec', [('other', 'v4')], lambda M, v: M.Mat4() @ v)
     return T
 
 
